@@ -27,5 +27,6 @@ CONSTANTS
   StopHooksMayFail = FALSE
   DrainOnClose = FALSE
   ReportBeforeRelease = FALSE
+  ReserveIgnoresStarting = FALSE
 SPECIFICATION Spec
 INVARIANTS TypeOK SerialFifo Conservation HandlingOnlyWhileRunning HookOrder CallSound RegistrySound FailedStartFreesName SupervisionSound GroupExactlyOne GroupLockSound GroupTriesEachOnce
